@@ -32,7 +32,9 @@ N(n) == V("num", n, "", <<>>)
 Sp(x) == V("num", 0, x, <<>>)            \* symbolic numeral
 S(cp) == V("str", 0, "", cp)
 R(id, kind) == V("ref", id, kind, <<>>)
-Poison == V("poison", 0, "", <<>>)       \* a value the model cannot represent (a non-integer number)
+Poison == V("poison", 0, "", <<>>)       \* marks a computation the model cannot decide: the program is skipped
+Frac == V("num", 0, "frac", <<>>)         \* some non-integer number: can be carried around and printed (as a wildcard),
+                                          \* but not compared
 
 Truthy(v) == ~(v.t = "nil" \/ (v.t = "bool" /\ v.n = 0))
 IsNum(v) == v.t = "num"
@@ -53,6 +55,7 @@ CpInf == <<105, 110, 102>>
 CpOpaque == <<60, 63, 62>>             \* "<?>" : text that contains an address, compared as a wildcard
 
 NumCp(v) == CASE v.x = "" -> IntCp(v.n)
+              [] v.x = "frac" -> <<0>>
               [] v.x = "nan" -> CpNaN
               [] v.x = "inf" -> CpInf
               [] v.x = "ninf" -> <<45>> \o CpInf
@@ -84,10 +87,12 @@ IsZero(v) == v.x = "nzero" \/ (v.x = "" /\ v.n = 0)
 Sign(v) == CASE v.x = "ninf" -> 0 - 1 [] v.x = "inf" -> 1 [] v.x = "nzero" -> 0 - 1 [] v.x = "nan" -> 0
              [] OTHER -> IF v.n < 0 THEN 0 - 1 ELSE 1        \* sign bit, +0 is positive
 Neg(v) == CASE v.x = "" -> IF v.n = 0 THEN Sp("nzero") ELSE N(0 - v.n)
+            [] v.x = "frac" -> Frac
             [] v.x = "nzero" -> N(0)
             [] v.x = "inf" -> Sp("ninf") [] v.x = "ninf" -> Sp("inf") [] OTHER -> v
 Arith(op, a, b) ==
   IF a.x = "nan" \/ b.x = "nan" THEN Sp("nan")
+  ELSE IF a.x = "frac" \/ b.x = "frac" THEN (IF a.x \in {"", "frac"} /\ b.x \in {"", "frac"} /\ ~(op = "/" /\ IsZero(b)) THEN Frac ELSE Poison)
   ELSE IF a.x = "" /\ b.x = "" /\ (a.n > 30000 \/ a.n < 0 - 30000 \/ b.n > 30000 \/ b.n < 0 - 30000) THEN Poison  \* outside the modelled range
   ELSE IF a.x = "" /\ b.x = "" /\ op \in {"+", "-", "*"} THEN
        CASE op = "+" -> N(a.n + b.n) [] op = "-" -> N(a.n - b.n)
@@ -98,7 +103,7 @@ Arith(op, a, b) ==
        ELSE IF a.x = "" /\ b.x = "" THEN
             (LET abs(x) == IF x < 0 THEN 0 - x ELSE x
                  q == abs(a.n) \div abs(b.n)
-             IN IF abs(a.n) % abs(b.n) # 0 THEN Poison
+             IN IF abs(a.n) % abs(b.n) # 0 THEN Frac
                 ELSE IF a.n = 0 THEN (IF b.n < 0 THEN Sp("nzero") ELSE N(0))
                 ELSE IF (a.n < 0) # (b.n < 0) THEN N(0 - q) ELSE N(q))
        ELSE IF a.x \in {"inf", "ninf"} /\ b.x \in {"inf", "ninf"} THEN Sp("nan")
@@ -234,6 +239,7 @@ BinOp(m, op, a, b, site) ==
          ELSE Throw(m, "RuntimeError", site)
     [] op \in {"-", "*", "/"} ->
          IF IsNum(a) /\ IsNum(b) THEN Val(m, Arith(op, a, b)) ELSE Throw(m, "RuntimeError", site)
+    [] op \in {"<", "<=", ">", ">=", "==", "!="} /\ IsNum(a) /\ IsNum(b) /\ (a.x = "frac" \/ b.x = "frac") -> Val(m, Poison)
     [] op \in {"<", "<=", ">", ">="} ->
          IF (IsNum(a) /\ IsNum(b)) \/ (IsStr(a) /\ IsStr(b)) THEN
            LET c == IF IsNum(a) THEN NumCmp(a, b) ELSE CpCmp(a.cp, b.cp)
